@@ -17,6 +17,8 @@ export NFV_TARGET="$TARGET"
 CFG=()
 if [ -n "${NFV_REPO:-}" ]; then
   CFG=(--config "paths=[\"$NFV_REPO\"]")
+  # sensitivity run against a scratch copy: keep its evidence / replays out of /verif
+  export NFV_OUT_DIR="$TARGET/out"
 fi
 LOG="$TARGET/build.log"
 mkdir -p "$TARGET"
